@@ -114,8 +114,11 @@ func checkC17Engine(c Node) Verdict {
 		if out.Err != nil {
 			return fail("error", sql, sig, "options %v: without options %s; with them error %v", opts, Canon(any(want)), out.Err)
 		}
+		// the order of the rows belongs to other properties: where ORDER BY leaves ties, or grouping / a join is
+		// involved, the runs are compared as multisets
+		unordered := ties || groupingOrJoin(q)
 		ok := Canon(any(out.Rows)) == Canon(any(want))
-		if ties && !ok {
+		if unordered && !ok {
 			ok = canonBag(out.Rows) == canonBag(want)
 		}
 		if !ok {
@@ -132,7 +135,8 @@ func checkC17Engine(c Node) Verdict {
 			}
 			out2 := Run(doc2, sql, false, Opts(o2, nil, nil)...)
 			v.Execs++
-			if out2.Err != nil || out2.Panic != nil || Canon(any(out2.Rows)) != Canon(any(out.Rows)) {
+			same := out2.Err == nil && out2.Panic == nil && (Canon(any(out2.Rows)) == Canon(any(out.Rows)) || (unordered && canonBag(out2.Rows) == canonBag(out.Rows)))
+			if !same {
 				return fail("result", sql, append(sig, "explicit-root"), "Wrapped() returns %s, the explicit {root: input} document %s", Canon(any(out.Rows)), out2.Describe())
 			}
 		}
